@@ -250,6 +250,7 @@ class CoroutineProcessor(Processor):
             except StopIteration as exception:
                 gen = self._active_queue.popleft()
                 del self._generators[gen]
+                self._kill_queue.discard(gen)   # Killed during its last step
                 self._promises[gen].value = exception.value
                 del self._promises[gen]
                 continue        # Do not rotate if last item was popped
